@@ -317,6 +317,9 @@ CODEC_OF = {'ber': 'BER', 'ber-indef': 'BER-indef', 'ber-chunked': 'BER-chunk', 
             'cer-spec': 'CER', 'der': 'DER', 'der-spec': 'DER'}
 
 
+_HUGE_DONE = set()
+
+
 def chk_purity(T, v, M, rng):
     """C12: codec calls change neither the value encoded nor the guiding type; results share no mutable state
     with the type or with each other; same outcome alone, repeated, or interleaved."""
@@ -368,6 +371,58 @@ def chk_purity(T, v, M, rng):
             continue
         if d1 != d0:
             out.append(fail('purity', T, v, 'encoding (%s) changed the DER encoding of the value' % name, got=d1, want=d0))
+    # 1b. objects that are not (yet) values: handing one to an encoder, whatever the outcome, leaves it as it was
+    if T['k'] in ('SEQUENCE', 'SET'):
+        from pyasn1.type import univ as univ__
+        from pyasn1.codec.native import encoder as nate__
+        mand = [j for j, f_ in enumerate(T['fields']) if f_[2] == 'req']
+
+        def partial(skip):
+            r_ = spec.clone()
+            for j in range(len(T['fields'])):
+                c_ = val.getComponentByPosition(j, instantiate=False, default=None)
+                if j != skip and c_ is not None and c_.isValue:
+                    r_.setComponentByPosition(j, c_)
+            return r_
+        def snap_nd(o_):
+            # a DEFAULT member holding its default value and an absent one are the same abstract content
+            s_ = snapshot(o_)
+            comps_ = list(s_[3])
+            for j, f_ in enumerate(T['fields']):
+                if isinstance(f_[2], (list, tuple)) and comps_[j] is not None:
+                    c_ = o_.getComponentByPosition(j, instantiate=False, default=None)
+                    if c_ is not None and c_ == o_.componentType[j].asn1Object:
+                        comps_[j] = None
+            return s_[:3] + (tuple(comps_),)
+        for skip in [None] + mand[:3]:
+            for name, f in (('ber', be.encode), ('cer', ce.encode), ('der', de.encode), ('native', nate__.encode)):
+                n += 1
+                try:
+                    obj = spec.clone() if skip is None else partial(skip)
+                except Exception:
+                    break
+                if obj.isValue:
+                    break                                          # nothing mandatory is missing
+                before = snap_nd(obj)
+                try:
+                    f(obj)
+                    how = 'accepted'
+                except error.PyAsn1Error:
+                    how = 'refused'
+                except Exception as ex:
+                    out.append(fail('purity', T, v, 'encoding (%s) an incomplete record raised %s: %s' % (
+                        name, type(ex).__name__, str(ex)[:80])))
+                    continue
+                after = snap_nd(obj)
+                if after != before:
+                    out.append(fail('purity', T, v, 'encoding (%s, %s) an incomplete record changed it: %s' % (
+                        name, how, 'it became a value' if after[2] and not before[2] else 'members differ'),
+                        incomplete_became_value=bool(after[2] and not before[2]),
+                        born_value_member=all(
+                            before[3][j] is None and T['fields'][j][2] == 'req' and
+                            T['fields'][j][1]['k'] in ('SEQUENCE', 'SET') and
+                            all(ff[2] != 'req' for ff in T['fields'][j][1]['fields'])
+                            for j in range(len(T['fields'])) if before[3][j] != after[3][j])))
     # 2. decoding leaves the guiding type alone; results are independent objects
     n += 1
     try:
@@ -438,6 +493,22 @@ def chk_purity(T, v, M, rng):
     except Exception:
         pass
 
+    from pyasn1.codec.native import decoder as natd_
+    huge = []
+    tkey = repr(sorted(T.items(), key=str))
+    if T['k'] in ('INTEGER', 'ENUMERATED', 'BITSTRING', 'OID', 'REAL') and tkey not in _HUGE_DONE:
+        _HUGE_DONE.add(tkey)
+        big_ = (1 << 20000) + 1
+        for mk in {'INTEGER': [lambda: spec.clone(big_), lambda: spec.clone(-big_)],
+                   'ENUMERATED': [lambda: spec.clone(big_)],
+                   'BITSTRING': [lambda: spec.clone(binValue='1' * 20000)],
+                   'OID': [lambda: spec.clone((1, 3, big_))],
+                   'REAL': [lambda: spec.clone((big_, 2, -20000))]}[T['k']]:
+            try:
+                huge.append(mk())
+            except error.PyAsn1Error:
+                pass                                               # the type's constraints refuse such a value
+
     def calls():
         res = []
 
@@ -473,6 +544,13 @@ def chk_purity(T, v, M, rng):
             one(lambda mk=mk: de.encode(mk()))
             one(lambda mk=mk: be.encode(mk(), defMode=False))
             one(lambda mk=mk: repr(nate_.encode(mk())))
+        # values a log line may be unable to print: integers of more digits than the interpreter converts to decimal
+        for hv in huge:
+            one(lambda hv=hv: be.encode(hv))
+            one(lambda hv=hv: dec_der(be.encode(hv)))
+            one(lambda hv=hv: nate_.encode(hv) is None)
+            one(lambda hv=hv: be.encode(nate_.encode(hv), asn1Spec=spec))
+            one(lambda hv=hv: be.encode(natd_.decode(nate_.encode(hv), asn1Spec=spec)))
         return res
     try:
         off = calls()
